@@ -144,6 +144,9 @@ def build_filter(al, filt, route, listarg=False):
                 break
         else:
             obj = build_section(al, sdesc, route)
+            if filt["comb"] != "single" and len(sdesc["b"]) == 1 and len(sdesc["a"]) == 1 and sdesc["adv"] == 0 \
+                    and fr_of(sdesc["a"][0]) == 1 and _BANKS[0] % 2 == 0:
+                obj = pynum(fr_of(sdesc["b"][0]))       # a constant branch given as a plain number
             made.append((sdesc, obj))
             secs.append(obj)
     if filt["comb"] == "single":
@@ -560,6 +563,11 @@ def m3_fr(ctx, al, rng, recs, meta):
                                                                       for _ in range(nsec)]}
         if nsec >= 2 and rng.random() < 0.3:
             filt["secs"][-1] = dict(filt["secs"][0])          # the same member twice
+        elif nsec >= 2 and rng.random() < 0.35:
+            # a constant member (given to the bank as a plain number, see build_filter)
+            c = rng.choice([-3, -1, 1, 2, 5])
+            filt["secs"][rng.randrange(nsec)] = {"b": [rat(Fraction(c))], "a": [rat(Fraction(1))], "adv": 0,
+                                                 "bf": [Fraction(c)], "af": [Fraction(1)]}
     cont = rng.choice(["scalar", "list", "list", "tuple", "deque", "Stream", "generator", "map", "set", "frozenset"])
     if cont == "scalar":
         ms = [rng.randint(0, 3)]
